@@ -1974,6 +1974,33 @@ fn ring(n: usize, hooks: &[EdgeHook], kinds: &[EdgeKind], name: String) -> Scena
     s
 }
 
+/// an actor that takes no part and offers the scheduler no choice (its hooks run free)
+fn bystander() -> ActorSpec {
+    let mut a = ActorSpec::plain(1);
+    a.free_handlers = true;
+    a.on_start = HookSpec { entry_yield: false, steps: vec![], out: Outcome::Ok, free: true };
+    a.on_stop = HookSpec { entry_yield: false, steps: vec![], out: Outcome::Ok, free: true };
+    a
+}
+
+/// a nested cycle among the actors `members` (indices into a population of `total` actors, the others being
+/// bystanders): members[0] asks members[1] asks ... asks members[0]
+fn spread_chain(total: usize, members: &[usize], name: String, close: bool) -> Scenario {
+    let mut ids = Ids(0);
+    let mut inner = MsgSpec::m1(ids.next());
+    let n = members.len();
+    let last = if close { n } else { n - 1 };
+    for i in (0..last).rev() {
+        let to = members[(i + 1) % n];
+        inner = MsgSpec::m1(ids.next()).steps(ask_steps(EdgeKind::Ask, to, inner));
+    }
+    let actors: Vec<ActorSpec> = (0..total).map(|i| if members.contains(&i) { ActorSpec::plain(2) } else { bystander() }).collect();
+    let c0 = Program::new(vec![(0, members[0])], vec![send(SendKind::Tell, 0, inner)]);
+    let mut s = scn(name, actors, vec![c0], &["quiet", "bound=2", "maxexecs=3000"]);
+    s.registry = true;
+    s
+}
+
 /// one trigger; the asks are nested: A0's handler asks A1, whose handler asks A2, ... whose handler asks A0
 fn chain(n: usize, kinds: &[EdgeKind], name: String) -> Scenario {
     let mut ids = Ids(0);
@@ -2056,7 +2083,12 @@ fn gen_c14(lvl: u8) -> Vec<Scenario> {
         }
     }
     // long nested chains: A0 asks A1 asks ... asks A(n-1), whose handler asks A0
-    for len in if thorough { vec![5usize, 6, 8, 12] } else { vec![5usize, 8] } {
+    // a 3-cycle whose members were spawned 64 (and 128) actors apart, among bystanders
+    for gap in [64usize, 128] {
+        n += 1;
+        out.push(spread_chain(gap + 2, &[0, gap, gap + 1], format!("c14-{n}-cycle3-among-{}-actors-ids-{gap}-apart", gap + 2), true));
+    }
+    for len in if thorough { vec![5usize, 6, 8, 10, 12, 20] } else { vec![5usize, 8, 10, 12] } {
         n += 1;
         out.push(chain(len, &vec![EdgeKind::Ask; len], format!("c14-{n}-chain{len}-long")));
     }
@@ -2257,6 +2289,23 @@ fn gen_c15(lvl: u8) -> Vec<Scenario> {
         let mut s = scn(format!("c15-{n}-gave-up-unanswered-{how}"), actors, clients, &["quiet"]);
         s.registry = true;
         out.push(s);
+    }
+    // a plain chain (no cycle) X asks A asks B, where A and B were spawned 64 (128) actors apart: nobody panics -
+    // whether X asks first (nested) or A is already waiting for B when X asks
+    for gap in [64usize, 128] {
+        n += 1;
+        out.push(spread_chain(gap + 2, &[gap + 1, 0, gap], format!("c15-{n}-chain3-no-cycle-ids-{gap}-apart-nested"), false));
+        let mut ids = Ids(0);
+        let slow = MsgSpec::m1(ids.next()).steps(vec![Step::Sleep(10)]);
+        let go1 = MsgSpec::m1(ids.next()).steps(ask_steps(EdgeKind::Ask, gap, slow));
+        let go2 = MsgSpec::m1(ids.next()).steps(ask_steps(EdgeKind::Ask, 0, MsgSpec::quick(ids.next())));
+        let actors: Vec<ActorSpec> = (0..gap + 2).map(|i| if i == 0 || i >= gap { ActorSpec::plain(2) } else { bystander() }).collect();
+        let c0 = Program::new(vec![(0, 0)], vec![send(SendKind::Tell, 0, go1)]);
+        let c1 = Program::new(vec![(0, gap + 1)], vec![Step::Sleep(5), send(SendKind::Tell, 0, go2)]);
+        n += 1;
+        let mut sc = scn(format!("c15-{n}-chain3-no-cycle-ids-{gap}-apart-late-asker"), actors, vec![c0, c1], &["quiet", "bound=2", "maxexecs=3000"]);
+        sc.registry = true;
+        out.push(sc);
     }
     // ask_join: once the JoinHandle has been handed over the caller waits for a task, not for the callee; when the
     // callee then asks the caller, that ask simply queues
@@ -2726,7 +2775,7 @@ fn gen_c18(lvl: u8) -> Vec<Scenario> {
     take(
         gen_c15(0)
             .into_iter()
-            .filter(|s| s.name.contains("-join-pending-slowtrue") || s.name.contains("-detached-ask-"))
+            .filter(|s| s.name.contains("-join-pending-slowtrue") || s.name.contains("-detached-ask-") || s.name.contains("-chain3-no-cycle-ids-"))
             .map(|mut s| {
                 if s.name.contains("-join-pending-") {
                     s.clients[1].steps.insert(0, Step::Sleep(5));
